@@ -63,15 +63,50 @@ ContextWitness(e) ==
      /\ CompatibleLoose(H, StartIdx(tx), MaxAdj(C.cfg))
      /\ \E p \in SeqOrfs(Apply(tx.seq, H), tx.coding, tx.orfStart, ShiftedSecs(tx, H)) : RelaxedFragment(C.cfg, p, e.seq)
 
+(* where the peptide sits on the sequence carrying H: nucleotide positions of the first      *)
+(* codon of every fragment of a translated ORF that spells e.seq                              *)
+FragStarts(pep, q) ==
+  {ab[1] : ab \in {x \in FragPairs(pep, C.cfg) : SubSeq(pep, x[1] + 1, x[2]) = q}}
+    \cup (IF Len(pep) > 0 /\ pep[1] = "M" /\ \E x \in FragPairs(pep, C.cfg) : x[1] = 0 /\ SubSeq(pep, 2, x[2]) = q THEN {1} ELSE {})
+PeptideStarts(tx, H, q) ==
+  LET s == Apply(tx.seq, H)
+      starts == IF tx.coding THEN {tx.orfStart} ELSE AtgStarts(s)
+  IN UNION {{st + 3 * a : a \in FragStarts(OrfOf(s, st, IF tx.coding THEN ShiftedSecs(tx, H) ELSE {}).pep, q)} : st \in starts}
+EndOnHap(v, H) == v.start + DeltaSum({u \in H \ {v} : u.end <= v.start}) + Len(v.alt)
+
+(* recorded finding: the entry omits input variants that lie wholly UPSTREAM of the peptide    *)
+(* (they change the reading frame or remove a stop codon on the way to it): the witness works  *)
+(* after adding a set S of unnamed variants of the transcript, all ending before the peptide   *)
+OmitsUpstream(e) ==
+  /\ IdsKnown(e) /\ Len(e.sect) = 0 /\ W2FSet(e) = {}
+  /\ LET tx == TxOf(C.txs[e.tx].tx)
+         rest == VarsOf(C.txs[e.tx].vars) \ Named(e)
+     IN /\ CompatibleLoose(Named(e), StartIdx(tx), MaxAdj(C.cfg))
+        /\ \E S \in (SUBSET rest) \ {{}} :
+              LET H == Named(e) \cup S IN
+              /\ WitnessWith(e, H)
+              /\ \E pos \in PeptideStarts(tx, H, e.seq) : \A v \in S : EndOnHap(v, H) <= pos
+(* recorded finding: the entry names variants whose reference spans overlap (they cannot sit   *)
+(* on one haplotype); the peptide is produced by a compatible subset of the named variants      *)
+NamesOverlapping(e) ==
+  /\ IdsKnown(e) /\ Len(e.sect) = 0 /\ W2FSet(e) = {}
+  /\ LET tx == TxOf(C.txs[e.tx].tx) IN
+     /\ ~CompatibleLoose(Named(e), StartIdx(tx), MaxAdj(C.cfg))
+     /\ \E H \in SUBSET Named(e) : WitnessWith(e, H)
+
+ClassOf(e) ==
+  IF MissingFrameshift(e) THEN "missing_frameshift"
+  ELSE IF OmitsUpstream(e) THEN "omits_upstream"
+  ELSE IF NamesOverlapping(e) THEN "names_overlapping"
+  ELSE IF ContextWitness(e) THEN "context_witness"
+  ELSE "no_witness"
+
 AllLabels == [k \in 1..Len(C.entries) |-> C.entries[k].label]
 Unique == \A a, b \in 1..Len(C.entries) : a # b => AllLabels[a] # AllLabels[b]
 
 Verdict ==
   LET bad == {k \in 1..Len(C.entries) : ~Witness(C.entries[k])}
-      fs == {k \in bad : MissingFrameshift(C.entries[k])}
-      cx == {k \in bad : ContextWitness(C.entries[k])}
   IN /\ (Unique \/ PrintT(<<"V", i, "duplicate_entry">>))
      /\ IF bad = {} THEN PrintT(<<"V", i, "ok", Len(C.entries)>>)
-        ELSE PrintT(<<"V", i, IF fs = bad THEN "missing_frameshift" ELSE IF cx = bad THEN "context_witness" ELSE "no_witness",
-                     {C.entries[k].label : k \in bad}>>)
+        ELSE PrintT(<<"V", i, "bad", {<<C.entries[k].label, ClassOf(C.entries[k])>> : k \in bad}>>)
 =============================================================================
